@@ -140,6 +140,7 @@ def describe_piece(tr, s, e):
         if not short or short[-1] != p:
             short.append(p)
     desc_has_arrow[0] = '->' in tr.text[s:e]
+    desc_arrow_rhs[0] = _arrow_rhs(tr.text[s:e]) if desc_has_arrow[0] else None
     import re
     desc_has_sign[0] = bool(re.search(r'\S\s*[-+]\.?\d', tr.text[s:e]))
     desc_has_index[0] = bool(re.search(r'[\w"`\]]\[', tr.text[s:e]))
@@ -154,6 +155,34 @@ PRED_KW = ('AND', 'OR', 'IS', 'BETWEEN', 'IN', 'EXISTS', 'NOT', 'NOT NULL')
 
 
 desc_has_arrow = [False]
+desc_arrow_rhs = [None]      # kind of what is written right of the first -> / ->> whose right operand is no name/string
+
+
+def _arrow_rhs(txt):
+    import re
+    for m in re.finditer(r'->>?\s*', txt):
+        rest = txt[m.end():]
+        if re.match(r'(?i)(date|timestamp|interval)\b', rest):
+            return 'TypedLiteral'
+        if re.match(r'(?i)case\b', rest):
+            return 'Case'
+        if re.match(r'(?i)(true|false|null|current_date|current_timestamp|current_time)\b', rest):
+            return 'kw:' + re.match(r'\w+', rest).group(0).upper()
+        if re.match(r'\d*\.\d|\d+[eE]', rest):
+            return 'Literal.Number.Float'
+        if re.match(r'0[xX]', rest):
+            return 'Literal.Number.Hexadecimal'
+        if re.match(r'\d', rest):
+            return 'Literal.Number.Integer'
+        if rest[:1] == '(':
+            return 'Parenthesis'
+        if re.match(r'[%?:$]', rest):
+            return 'Name.Placeholder'
+        if re.match(r'\w+\(', rest):
+            return 'Function'
+        if rest[:2] == '$$' or re.match(r'\$\w*\$', rest):
+            return 'Literal'
+    return None
 desc_has_sign = [False]
 desc_has_index = [False]
 
@@ -200,6 +229,9 @@ def split_cause(desc):
         return 'operation-operand:Wildcard'
     if len(parts) == 2 and parts[0] in ('Identifier', 'Operation') and desc_has_arrow[0]:
         return 'arrow-right-operand:' + parts[1]
+    if len(parts) == 1 and parts[0] in ('Identifier', 'Operation') and desc_has_arrow[0] and desc_arrow_rhs[0]:
+        # the item is cut right after the arrow (the rest lies outside the list): `a->>TIMESTAMP '..'`
+        return 'arrow-right-operand:' + desc_arrow_rhs[0]
     if len(parts) >= 2 and parts[-1] == 'Identifier':
         if len(parts) >= 3 and parts[-2] == 'kw:AS':
             return 'alias-after:' + parts[-3]
@@ -692,6 +724,51 @@ CLASSES = collections.OrderedDict([
 CLASS_PRED = {name: (lambda sig, rx=_re.compile(v[0]): bool(rx.search(sig))) for name, v in CLASSES.items()}
 
 
+def _piece(f):
+    """The written text of the piece the failing check is about (union of the spans named in the check)."""
+    text = f.get('text') or ''.join(map(chr, f.get('input', [])))
+    chk = f.get('check')
+    if isinstance(chk, str):
+        try:
+            import ast as _ast
+            chk = _ast.literal_eval(chk)
+        except Exception:  # noqa
+            chk = None
+    spans = []
+
+    def walk(x):
+        if isinstance(x, (list, tuple)):
+            if len(x) >= 2 and isinstance(x[0], int) and isinstance(x[1], int):
+                spans.append((x[0], x[1]))
+            else:
+                for y in x:
+                    walk(y)
+        elif isinstance(x, dict):
+            for y in x.values():
+                walk(y)
+    walk(chk)
+    if not spans:
+        return text
+    return text[min(a for a, _ in spans):max(b for _, b in spans)]
+
+
+# Mechanism features of the WRITTEN piece, for failures of the kind "the written piece is not one node" whose signature
+# is a combination not seen before: the piece is attributed to a listed finding only when it contains the construct
+# that finding is about (pieces of the core grammar -- names, numbers, strings, + - * / ||, calls, parentheses, CASE,
+# comparisons -- have none of these features and are never attributed).
+FEATURES = [
+    ('grammar-ambiguous-text', lambda p: _re.search(r'<@|#>|@>|%\s*[%(s?:]|--', p) is not None),
+    ('lex-sigil-name', lambda p: _re.search(r'(?<![\w"`\]\)])[@#]{1,2}\w', p) is not None),
+    ('arrow-operator-right-operand-not-name', lambda p: '->' in p and _arrow_rhs(p) is not None),
+    ('array-index-below-top-level', lambda p: _re.search(r'[\w"`\]]\s*\[', p) is not None),
+    ('lex-sign-fused-with-number', lambda p: _re.search(r'\S\s*[-+]\.?\d', p) is not None),
+    ('operation-operand-class-not-accepted',
+     lambda p: _re.search(r'(?i)\bcase\b|\b(true|false|null|current_\w+)\b|\b0x[0-9a-f]+|\$\w*\$|(^|[^\w)\]])\*|\*\s*($|[^\w(\[])', p) is not None),
+    ('predicate-item-not-one-node', lambda p: _re.search(r'(?i)\b(and|or|is|between|in|exists|not)\b', p) is not None),
+]
+SPLIT_KINDS = _re.compile(r':(item-split|operand-split|item-not-listable|sole-arg-dropped)\b|^cmp:no-node:|:alias-after:')
+
+
 def classify(f, known):
     sig = f.get('sig') or ''
     for k in known:
@@ -701,6 +778,15 @@ def classify(f, known):
             if want and not any(sig.startswith(w) for w in want):
                 continue
             return k['id']
+    if SPLIT_KINDS.search(sig):
+        piece = _piece(f)
+        ids = {k.get('class'): k['id'] for k in known}
+        for cls, pred in FEATURES:
+            try:
+                if cls in ids and pred(piece):
+                    return ids[cls]
+            except Exception:  # noqa
+                pass
     return None
 
 
